@@ -184,7 +184,69 @@ func (pe *parserEval) norm(p kpos) kpos {
 	}
 }
 
+// resolve looks through a load of a local memory cell (a spilled local, a field of a local struct such as a small
+// cursor object) to the value stored in it, when one store of that cell reaches the load in straight-line code:
+// every store of the same cell either dominates the load (the latest of them is taken) or comes after it.
+func (pe *parserEval) resolve(v ssa.Value) ssa.Value {
+	for depth := 0; depth < 8; depth++ {
+		u, ok := v.(*ssa.UnOp)
+		if !ok || u.Op != token.MUL {
+			return v
+		}
+		if _, isIdx := u.X.(*ssa.IndexAddr); isIdx {
+			return v
+		}
+		fa := pe.e.FA(pe.fn)
+		root, _, path := fa.addrPath(u.X)
+		if !strings.HasPrefix(root, "alloc#") {
+			return v
+		}
+		key := root + strings.Join(path, "")
+		var best *ssa.Store
+		okAll := true
+		for _, b := range pe.fn.Blocks {
+			for _, in := range b.Instrs {
+				st, isSt := in.(*ssa.Store)
+				if !isSt {
+					continue
+				}
+				r2, _, p2 := fa.addrPath(st.Addr)
+				k2 := r2 + strings.Join(p2, "")
+				if k2 != key {
+					// a store to the whole struct or to an enclosing path would also define the cell: give up
+					if strings.HasPrefix(key, k2) && r2 == root {
+						okAll = false
+					}
+					continue
+				}
+				switch {
+				case fa.Dominates(st, u):
+					if best == nil || fa.Dominates(best, st) {
+						best = st
+					}
+				case fa.Dominates(u, st):
+					// later store: irrelevant for this load
+				default:
+					okAll = false
+				}
+			}
+		}
+		if best == nil || !okAll {
+			return v
+		}
+		v = best.Val
+	}
+	return v
+}
+
+func (pe *parserEval) isKey(v ssa.Value) bool {
+	v = pe.resolve(v)
+	p, ok := v.(*ssa.Parameter)
+	return ok && len(pe.fn.Params) > 0 && p == pe.fn.Params[0]
+}
+
 func (pe *parserEval) eval(v ssa.Value) kval {
+	v = pe.resolve(v)
 	if r, ok := pe.memo[v]; ok {
 		return r
 	}
@@ -226,7 +288,7 @@ func (pe *parserEval) eval0(v ssa.Value) kval {
 	case *ssa.UnOp:
 		if x.Op == token.MUL {
 			if ia, ok := x.X.(*ssa.IndexAddr); ok {
-				if p, isParam := ia.X.(*ssa.Parameter); isParam && p == pe.fn.Params[0] {
+				if pe.isKey(ia.X) {
 					idx := pe.eval(ia.Index)
 					if idx.kind == "pos" && idx.pos.c == 0 && len(idx.pos.lens) == 0 && idx.pos.k < len(pe.layout) && pe.layout[idx.pos.k].kind == "lp" {
 						return kval{kind: "len", seg: idx.pos.k}
@@ -264,7 +326,7 @@ func (pe *parserEval) eval0(v ssa.Value) kval {
 			}
 		}
 	case *ssa.Slice:
-		if p, isParam := x.X.(*ssa.Parameter); isParam && p == pe.fn.Params[0] {
+		if pe.isKey(x.X) {
 			var lo, hi kval
 			if x.Low != nil {
 				lo = pe.eval(x.Low)
